@@ -23,6 +23,7 @@ package main
 import (
 	"bytes"
 	"crypto/sha256"
+	"encoding/binary"
 	"encoding/hex"
 	"encoding/json"
 	"errors"
@@ -38,10 +39,14 @@ import (
 	"verif/txkit"
 	"verif/vk"
 
+	"github.com/lianxiangcloud/linkchain/app"
+	cfg "github.com/lianxiangcloud/linkchain/config"
 	"github.com/lianxiangcloud/linkchain/libs/common"
+	"github.com/lianxiangcloud/linkchain/libs/crypto"
 	lktypes "github.com/lianxiangcloud/linkchain/libs/cryptonote/types"
 	dbm "github.com/lianxiangcloud/linkchain/libs/db"
 	mempl "github.com/lianxiangcloud/linkchain/mempool"
+	"github.com/lianxiangcloud/linkchain/state"
 	"github.com/lianxiangcloud/linkchain/types"
 )
 
@@ -128,6 +133,30 @@ func modeName(trie bool) string {
 
 var dirs []string
 
+// installCandidate: prior state 3. The validator that proposes height 1 is an elected candidate with score 5 that
+// produced the last two blocks in round 0 (ProduceInfo == config.TwoConsecutive): the FaultValidatorsEvidence every block
+// of height >= 2 carries names it as round-0 proposer of the previous block, so executing the next block raises its
+// score in the candidates contract record (a state write), resets ProduceInfo and reports score 6 in the block's
+// candidate list. One candidate: 1*3/5 = 0 candidates are promoted to validators, the validator set stays the fixture's.
+func installCandidate(c *minichain.Chain) {
+	v := c.Status().Validators.GetProposer()
+	pub := v.PubKey
+	rec, err := json.Marshal(state.CandidateJSON{PubKey: "0x" + common.Bytes2Hex(pub.Bytes()), CoinBase: v.CoinBase, VotingPower: v.VotingPower, Score: 5})
+	if err != nil {
+		hfail("candidate record: %v", err)
+	}
+	// the TLV framing the contracts' storage layer uses (state.UpdateCandidateScore skips 3 bytes and a trailing 0)
+	val := append(append([]byte{1, 2, 3}, rec...), 0)
+	key2 := "0x" + common.Bytes2Hex(pub.Bytes()) + string(rune(0))
+	l := make([]byte, 2)
+	binary.LittleEndian.PutUint16(l, uint16(len(key2)))
+	key := append(append(append([]byte("cand"), state.TagString), l...), key2...)
+	c.App().VerifC05InstallCandidates([]*types.CandidateInOrder{{
+		Candidate:   types.Candidate{Address: pub.Address(), PubKey: pub, VotingPower: v.VotingPower, CoinBase: v.CoinBase},
+		ProduceInfo: cfg.TwoConsecutive, Score: 5,
+	}}, cfg.ContractCandidatesAddr, map[common.Hash][]byte{crypto.Keccak256Hash(key): val})
+}
+
 func (t *template) clone() *minichain.Chain {
 	dbs := map[string]*kv.CopyDB{}
 	for _, n := range minichain.DBNames {
@@ -155,7 +184,7 @@ func cleanupDirs() {
 	dirs = dirs[:0]
 }
 
-var priors [2]*prior
+var priors [3]*prior
 
 func getPrior(st int) *prior {
 	if priors[st] != nil {
@@ -168,7 +197,17 @@ func getPrior(st int) *prior {
 		if err != nil {
 			hfail("template: %v", err)
 		}
-		c.Track(txkit.D.Addr, types.MultiSignNonceAddr)
+		c.Track(txkit.D.Addr, types.MultiSignNonceAddr, cfg.ContractCandidatesAddr)
+		if st == 2 {
+			installCandidate(c)
+			if _, err := c.Step(types.Txs{txkit.Transfer(txkit.A, 0, txkit.B.Addr, txkit.LKC(10))}); err != nil {
+				hfail("template: first block of the candidate state (%s): %v", modeName(trie), err)
+			}
+			res, err := c.TxsResult(1)
+			if err != nil || len(res.Candidates) != 1 || res.Candidates[0].ProduceInfo != cfg.TwoConsecutive || len(c.AllAccounts()[cfg.ContractCandidatesAddr].Storage) != 1 {
+				hfail("template: the candidate list / candidate record were not persisted by block 1 (%s): %v %+v", modeName(trie), err, res)
+			}
+		}
 		if st == 1 {
 			if _, err := c.Step(mixedBlock(c)); err != nil {
 				hfail("template: mixed block (%s): %v", modeName(trie), err)
@@ -351,7 +390,8 @@ type caseResult struct {
 	AdmissibleNotExecutable bool           `json:"admissible_not_executable"`
 	Kinds                   map[string]int `json:"kinds"`
 	Ms                      int64          `json:"ms"`
-	Harness                 string         `json:"harness"` // harness error inside the case (not a verdict)
+	CandidateAwarded        bool           `json:"candidate_awarded"` // third prior state: the evidence named the candidate, score 5 -> 6
+	Harness                 string         `json:"harness"`           // harness error inside the case (not a verdict)
 }
 
 type replica struct {
@@ -368,6 +408,57 @@ func (r *caseResult) viol(key, format string, a ...interface{}) {
 		}
 	}
 	r.Viol = append(r.Viol, violRec{key, fmt.Sprintf(format, a...)})
+}
+
+// procDigest: everything one execution of processBlock computed.
+func procDigest(o app.VerifC05Processed) string {
+	if !o.Ok {
+		return "refused"
+	}
+	var rj, outs, kis, sp []string
+	for _, r := range o.Receipts {
+		bz, _ := json.Marshal(r)
+		rj = append(rj, string(bz))
+	}
+	for _, u := range o.Result.UTXOOutputs() {
+		outs = append(outs, hashOf(u))
+	}
+	for _, k := range o.Result.KeyImages() {
+		kis = append(kis, hex.EncodeToString(k[:]))
+	}
+	for _, t := range o.Result.SpecialTxs() {
+		sp = append(sp, t.Hash().Hex())
+	}
+	cands, _ := json.Marshal(o.Result.Candidates)
+	return fmt.Sprintf("state %x receipts %x gas %d bloom %s candidates %s outputs %s images %s special %v receipts+logs %s", o.Result.StateHash, o.Result.ReceiptHash, o.Result.GasUsed,
+		hashOf(o.Result.LogsBloom[:]), cands, hashOf(outs), hashOf(kis), sp, hashOf(rj))
+}
+
+// firstDiff shows where two multi-line digests part.
+func firstDiff(a, b string) string {
+	la, lb := strings.Split(a, "\n"), strings.Split(b, "\n")
+	for i := 0; i < len(la) && i < len(lb); i++ {
+		if la[i] != lb[i] {
+			x, y := la[i], lb[i]
+			k := 0
+			for k < len(x) && k < len(y) && x[k] == y[k] {
+				k++
+			}
+			from := k - 120
+			if from < 0 {
+				from = 0
+			}
+			cut := func(s string) string {
+				to := k + 60
+				if to > len(s) {
+					to = len(s)
+				}
+				return s[from:to]
+			}
+			return fmt.Sprintf("before ...%q, after ...%q", cut(x), cut(y))
+		}
+	}
+	return fmt.Sprintf("%d / %d lines", len(la), len(lb))
 }
 
 // catch is vk.Catch that lets harness errors through.
@@ -627,6 +718,46 @@ func runBlockCase1(bc blockCase) (res caseResult) {
 		V3 := add("path:before-other-proposal")
 		rb, rp = decode()
 		finish(V3, rb, rp, nil, func() { V3.c.CheckBlock(minichain.CloneBlock(t.x)); res.Executions++ })
+		// repeated executions on ONE application object: the same block k times (as proposer: PreRunBlock, then CheckBlock;
+		// as validator of a height that needs several proposals: X, another proposal X', X again). Every execution must give
+		// the same result, and an execution that is not committed must leave the objects the application keeps untouched.
+		RP := add("path:repeated-execution")
+		rb, rp = decode()
+		if pan, pv := catch(func() {
+			ap := RP.c.App()
+			kept := ap.VerifC05KeptDigest()
+			first, firstName := "", ""
+			step := func(name string, run func() string) {
+				d := run()
+				res.Executions++
+				if d != "" {
+					if first == "" {
+						first, firstName = d, name
+					} else if d != first {
+						res.viol("repeat:result-differs-between-executions-on-one-node", "%s: %s gives %s, %s on the same application and committed state gave %s", mode, name, d, firstName, first)
+					}
+				}
+				if k := ap.VerifC05KeptDigest(); k != kept {
+					res.viol("repeat:uncommitted-execution-changes-kept-state", "%s: after %s (nothing committed) the objects the application keeps between executions differ: %s", mode, name, firstDiff(kept, k))
+					kept = k
+				}
+			}
+			exec := func(preRun bool) func() string {
+				return func() string {
+					return procDigest(ap.VerifC05ProcessOn(minichain.CloneBlock(rb), ap.VerifStoreState().Copy(), preRun))
+				}
+			}
+			if honest {
+				step("execution 1 (proposer path, preRun)", exec(true))
+			}
+			step("execution 2 (validator path)", exec(false))
+			step("execution 3 (validator path again)", exec(false))
+			step("CheckBlock of another proposal for the same height", func() string { RP.c.CheckBlock(minichain.CloneBlock(t.x)); return "" })
+			step("execution 4 (after the other proposal)", exec(false))
+		}); pan {
+			res.viol("panic-in-CheckBlock:path:repeated-execution", "%s: repeated execution panics: %v", mode, pv)
+		}
+		finish(RP, rb, rp, nil, nil)
 		// fast sync: the block as the proposer stored it (if it did), otherwise its wire copy
 		F := add("path:fast-sync")
 		fb := minichain.CloneBlock(b)
@@ -720,6 +851,12 @@ func runBlockCase1(bc blockCase) (res caseResult) {
 	if proposed[0].Hash() != proposed[1].Hash() {
 		res.viol("replica-divergence:proposed-block:storage-mode", "proposers in flat and trie mode build different blocks from the same transactions: %s / %s (state %x/%x receipts %x/%x gas %d/%d)",
 			proposed[0].Hash().Hex(), proposed[1].Hash().Hex(), proposed[0].StateHash, proposed[1].StateHash, proposed[0].ReceiptHash, proposed[1].ReceiptHash, proposed[0].GasUsed, proposed[1].GasUsed)
+	}
+	if bc.st == 2 && vf.o.accepted {
+		// non-vacuity of the candidate state: the block's evidence named the candidate and its score was raised
+		if r2, err := vf.c.TxsResult(vf.c.Height()); err == nil && len(r2.Candidates) == 1 && r2.Candidates[0].Score == 6 && r2.Candidates[0].ProduceInfo == 0 {
+			res.CandidateAwarded = true
+		}
 	}
 	res.Outcome = outcome[0]
 	res.Replicas = len(all)
